@@ -36,7 +36,7 @@ type c19Plan struct {
 }
 
 var c19Endings = []string{"served", "served", "served", "not-found", "paused-out", "stopped", "redirect", "tls-refused", "target-down", "target-silent",
-	"too-large", "resp-overflow", "client-abort", "upgrade", "sse"}
+	"too-large", "resp-overflow", "client-abort", "upgrade", "sse", "target-cut-mid-body"}
 
 func c19Gen(t *rapid.T) c19Plan {
 	p := c19Plan{}
@@ -179,6 +179,11 @@ func c19Run(t *testing.T, p c19Plan) (res vfResult) {
 			case "upgrade":
 				host, svc, target, wantStatus, wantLen, respHeaders = "hand.test", "hand", "ta0:80", 101, 0, nil
 				method = "GET"
+			case "target-cut-mid-body":
+				// full header block, part of the promised body, then the connection is reset: the proxy's handler aborts
+				script = []vfRawStep{{Kind: "bytes", Data: "HTTP/1.1 200 OK\r\nContent-Length: 50000\r\nX-Vf-Target: raw\r\nContent-Type: text/x-vf\r\n\r\n" + strings.Repeat("z", 20000)}, {Kind: "delay", DelayMs: 5}, {Kind: "reset"}}
+				wantStatus, wantLen = 200, -2
+				respHeaders = nil
 			}
 			if rq.Ending != "served" {
 				other = true
@@ -273,7 +278,7 @@ func c19Run(t *testing.T, p c19Plan) (res vfResult) {
 					res.failf("harness-expectation", "%s: client received %d, scenario expects %d", desc, resp.Resp.StatusCode, wantStatus)
 					return
 				}
-				if wantLen < 0 {
+				if wantLen == -1 {
 					wantLen = int64(len(resp.Body))
 				}
 			}
@@ -293,7 +298,14 @@ func c19Run(t *testing.T, p c19Plan) (res vfResult) {
 				!check("service", svc) || !check("target", target) {
 				return
 			}
-			if rq.Ending != "upgrade" && rq.Ending != "client-abort" || true {
+			if wantLen == -2 {
+				// aborted response: the record counts what was written before the abort, at least what the client got
+				n, _ := rec["resp_content_length"].(int64)
+				if resp != nil && n < int64(len(resp.Body)) {
+					res.failf("record-field:resp_content_length", "%s: access-log resp_content_length=%d, but the client received %d body bytes before the response was cut", desc, n, len(resp.Body))
+					return
+				}
+			} else {
 				if got := fmt.Sprint(rec["resp_content_length"]); got != fmt.Sprint(wantLen) {
 					res.failf("record-field:resp_content_length", "%s: access-log resp_content_length=%s, the client received %d body bytes; record=%v", desc, got, wantLen, rec)
 					return
